@@ -48,27 +48,27 @@ func writeEvidence(cfg RunConfig, p Prop, st *Stats, seeds []uint64, done, plann
 		}
 	}
 	cov := map[string]any{
-		"evaluations":         st.Evaluations,
-		"distinct_nontrivial": st.DistinctCount(),
-		"rule":                p.Rule(),
-		"samples":             samples,
-		"exhaustive":          false,
-		"scenarios":           st.Scenarios,
-		"simulated_runs":      st.Evaluations,
-		"runs_per_hour":       runsPerHour,
-		"seeds":               seeds,
-		"batches_done":        done,
-		"batches_planned":     planned,
+		"evaluations":                     st.Evaluations,
+		"distinct_nontrivial":             st.DistinctCount(),
+		"rule":                            p.Rule(),
+		"samples":                         samples,
+		"exhaustive":                      false,
+		"scenarios":                       st.Scenarios,
+		"simulated_runs":                  st.Evaluations,
+		"runs_per_hour":                   runsPerHour,
+		"seeds":                           seeds,
+		"batches_done":                    done,
+		"batches_planned":                 planned,
 		"batches_skipped_for_wall_budget": skipped,
-		"simulated_time":      "0 - nothing in go/mcap or go/ros reads a clock; progress is measured in simulator events",
-		"simulator_events":    events,
-		"faults_fired":        faults,
-		"fault_regions":       regions,
-		"probes":              probes,
-		"counters":            other,
-		"components":          comp,
-		"event_hash":          st.EventHash,
-		"known_finding_hits":  st.KnownHits,
+		"simulated_time":                  "0 - nothing in go/mcap or go/ros reads a clock; progress is measured in simulator events",
+		"simulator_events":                events,
+		"faults_fired":                    faults,
+		"fault_regions":                   regions,
+		"probes":                          probes,
+		"counters":                        other,
+		"components":                      comp,
+		"event_hash":                      st.EventHash,
+		"known_finding_hits":              st.KnownHits,
 	}
 	if replay != "" {
 		cov["replay"] = replay
